@@ -108,6 +108,12 @@ def build_model(repo, mod, con, args):
         for st in stmts:
             if isinstance(st, ast.Expr) and isinstance(st.value, ast.Constant):
                 continue
+            if isinstance(st, ast.Pass):
+                continue
+            if isinstance(st, ast.Assert):
+                if not ev(st.test, local):
+                    raise Raised(f"assertion fails: {norm(st.test)}")
+                continue
             if isinstance(st, ast.FunctionDef):
                 decs = decorators(st)
                 if decs == ['update']:
@@ -168,8 +174,16 @@ def build_model(repo, mod, con, args):
                             if isinstance(t, ast.Name):
                                 m.alias[t.id] = path
                         continue
-                if len(st.targets) == 1 and isinstance(st.targets[0], ast.Name):
-                    local[st.targets[0].id] = ev(v, local)
+                if all(isinstance(t, ast.Name) or (isinstance(t, ast.Attribute) and norm(t.value) == me) for t in st.targets):
+                    val = ev(v, local)                       # plain constants: `k = nreqs * 2`, `s.nreqs = nreqs`
+                    for t in st.targets:
+                        local[norm(t)] = val
+                    continue
+                if len(st.targets) == 1 and isinstance(st.targets[0], ast.Tuple) and isinstance(v, ast.Tuple) \
+                        and len(v.elts) == len(st.targets[0].elts) and all(isinstance(t, ast.Name) for t in st.targets[0].elts):
+                    vals = [ev(x, local) for x in v.elts]
+                    for t, val in zip(st.targets[0].elts, vals):
+                        local[t.id] = val
                     continue
             raise AnalysisError(f"{con.name}: statement outside the model: {norm(st)[:80]}")
     scan(con.body, env)
@@ -473,8 +487,11 @@ def _nonuniform(con):
                 derived.add(st.targets[0].id)
                 changed = True
     hits = []
+    in_assert = {id(x) for a in ast.walk(con) if isinstance(a, ast.Assert) for x in ast.walk(a)}
     for n in ast.walk(con):
         bad = None
+        if id(n) in in_assert:
+            continue                   # a parameter check (`assert nreqs >= 2`) selects no behaviour
         if isinstance(n, (ast.If, ast.IfExp, ast.While)) and names_in(n.test) & derived:
             bad = n.test
         elif isinstance(n, ast.Compare) and names_in(n) & derived:
@@ -796,6 +813,10 @@ EQUIV = [
        "        if ~s.priority_int[i]:\n          s.kills[i+1] @= s.kills[i] | ( ~s.kills[i] & s.reqs_int[i] )\n        else:\n          s.kills[i+1] @= s.reqs_int[i]", count='first'),
     _m('regenrst-nested-if', "      if s.reset: s.out <<= reset_value\n      elif s.en:  s.out <<= s.in_", "      if s.reset:\n        s.out <<= reset_value\n      else:\n        if s.en:\n          s.out <<= s.in_", file=REG),
     _m('pointer-copied-to-upper-half', "      s.priority_int[nreqs:nreqsX2] @= 0", "      s.priority_int[nreqs:nreqsX2] @= s.priority_reg.out", count='first'),
+    _m('construct-helper-locals', "    nreqsX2 = nreqs * 2\n    Type    = mk_bits( nreqs )\n\n    s.reqs   = InPort ( Type )",
+       "    assert nreqs >= 2\n    s.nreqs = nreqs\n    nreqsX2, last = nreqs * 2, nreqs - 1\n    Type    = mk_bits( s.nreqs )\n\n    s.reqs   = InPort ( Type )"),
+    _m('grant-block-locals-ifexp', "        if s.priority_int[i]:\n          s.grants_int[i] @= s.reqs_int[i]\n        else:\n          s.grants_int[i] @= ~s.kills[i] & s.reqs_int[i]",
+       "        req = s.reqs_int[i]\n        killed = s.kills[i]\n        s.grants_int[i] @= req if s.priority_int[i] else ~killed & req", count='first'),
     _m('en-conjuncts-swapped', _EN_PEN, "      s.priority_en @= s.en & ( s.grants != 0 )\n"),
     _m('doubling-constant-form', "    nreqsX2 = nreqs * 2\n", "    nreqsX2 = nreqs + nreqs\n", count=2),
 ]
